@@ -154,6 +154,7 @@ Inductive G :=
 | Pratt (atom : G) (ops : list pop) (* atom.pratt(ops): operators are tried in list order *)
 | GroupArr (gs : list G)            (* group([..; N]): the array form (MaybeUninit storage, see Model/Ledger.v) *)
 | NestedIn (a : G)                  (* a.nested_in(select_ref! { Group(children) => children as input }) *)
+| WithState (k : N) (a : G)         (* a.with_state(HState::seeded(k)): a runs on a fresh copy of that state, the outer state is untouched *)
 | Skip (n : nat)                    (* custom(|inp| { for _ in 0..n { inp.skip() } Ok(()) }): InputRef::skip, n times *)
 | ExtWrap (a : G)                   (* Ext(P) with ExtParser::parse = inp.parse(&a) and a separate ExtParser::check = inp.check(&a) *)
 with pop :=
